@@ -516,6 +516,16 @@ func runCheck(opt vexec.Options, prop string, seed int64, verif string) int {
 					continue
 				}
 				o = outs[0]
+				// The native run iterates Go maps in the runtime's random order while the
+				// engine's path fixed one order: a counterexample that depends on map
+				// iteration order is replayed by repetition before it is called a mismatch.
+				for try := 0; try < 24 && !nativeShows(v, o); try++ {
+					outs, err = nr.run([]replayCase{rc})
+					if err != nil {
+						break
+					}
+					o = outs[0]
+				}
 			}
 			if !reproduced && v.Kind == "assert" && usesSchedule(v) {
 				// schedule-dependent assertion: replay by repetition
@@ -669,6 +679,21 @@ func runCheck(opt vexec.Options, prop string, seed int64, verif string) int {
 		return 2
 	}
 	return 0
+}
+
+// nativeShows: the native outcome exhibits the violation the engine reported.
+func nativeShows(v vexec.Violation, o nativeOutcome) bool {
+	switch v.Kind {
+	case "assert":
+		for _, f := range o.Failed {
+			if f == v.Label {
+				return true
+			}
+		}
+	case "panic":
+		return o.Panic != ""
+	}
+	return false
 }
 
 // usesSchedule: the counterexample path contains scheduling decisions.
